@@ -1,39 +1,24 @@
-use parry2d_f64::na::{DMatrix, Matrix3};
+use engeom::{Iso3, Mesh, Plane3, Point3, UnitVec3, Vector3};
 fn main() {
-    let mut s: u64 = 4242;
-    let mut rnd = || { s ^= s << 13; s ^= s >> 7; s ^= s << 17; (s >> 11) as f64 / (1u64 << 53) as f64 };
-    // variants: 0 default svd, 1 try_svd eps=1e-16 , 2 svd of transpose, 3 svd of gram, 4 QR then svd of R, 5 symmetric_eigen
-    let mut worst = [0.0f64; 6];
-    let mut bad = [0usize; 6];
-    let total = 100000;
-    for _ in 0..total {
-        let n = 4 + (rnd() * 110.0) as usize;
-        let kind = (rnd() * 4.0) as usize;
-        let st = match kind { 0 => [1.0, 0.0, 0.0], 1 => [1.0, 0.5, 0.0], _ => [10f64.powf(2.0 * rnd() - 1.0), 10f64.powf(2.0 * rnd() - 1.0), 10f64.powf(2.0 * rnd() - 1.0)] };
-        let mut m = DMatrix::<f64>::zeros(n, 3);
-        for i in 0..n { for j in 0..3 { m[(i, j)] = (2.0 * rnd() - 1.0) * st[j]; } }
-        let a = rnd() * 6.28; let (sa, ca) = a.sin_cos();
-        let b = rnd() * 6.28; let (sb, cb) = b.sin_cos();
-        for i in 0..n { let (x, y) = (m[(i,0)], m[(i,1)]); m[(i,0)] = ca*x - sa*y; m[(i,1)] = sa*x + ca*y;
-                        let (y, z) = (m[(i,1)], m[(i,2)]); m[(i,1)] = cb*y - sb*z; m[(i,2)] = sb*y + cb*z; }
-        // centre
-        for j in 0..3 { let mean: f64 = (0..n).map(|i| m[(i,j)]).sum::<f64>() / n as f64; for i in 0..n { m[(i,j)] -= mean; } }
-        let g: Matrix3<f64> = Matrix3::from_fn(|r, c| (0..n).map(|i| m[(i, r)] * m[(i, c)]).sum());
-        // exact-ish reference: Jacobi on 3x3
-        let mut aa = g; let mut ev = [0.0; 3];
-        for _ in 0..60 { for (p, q) in [(0usize,1usize),(0,2),(1,2)] { if aa[(p,q)].abs() < 1e-300 { continue; }
-            let th = (aa[(q,q)] - aa[(p,p)]) / (2.0 * aa[(p,q)]); let t = th.signum() / (th.abs() + (th*th + 1.0).sqrt()); let c = 1.0 / (t*t + 1.0).sqrt(); let sn = t * c;
-            let mut r = Matrix3::<f64>::identity(); r[(p,p)] = c; r[(q,q)] = c; r[(p,q)] = sn; r[(q,p)] = -sn; aa = r.transpose() * aa * r; } }
-        for k in 0..3 { ev[k] = aa[(k,k)].max(0.0).sqrt(); }
-        ev.sort_by(|a, b| b.partial_cmp(a).unwrap());
-        let cmp = |v: Vec<f64>| -> f64 { let mut v = v; v.sort_by(|a, b| b.partial_cmp(a).unwrap()); (0..3).map(|k| (v[k] - ev[k]).abs() / ev[0].max(1e-300)).fold(0.0, f64::max) };
-        let r0 = cmp(m.clone().svd(false, true).singular_values.iter().cloned().collect());
-        let r1 = cmp(m.clone().try_svd(false, true, 1e-16, 0).unwrap().singular_values.iter().cloned().collect());
-        let r2 = cmp(m.transpose().svd(true, false).singular_values.iter().cloned().collect());
-        let r3 = cmp(g.svd(false, true).singular_values.iter().map(|x| x.sqrt()).collect());
-        let r4 = cmp(m.clone().qr().r().svd(false, true).singular_values.iter().cloned().collect());
-        let r5 = cmp(g.symmetric_eigen().eigenvalues.iter().map(|x| x.max(0.0).sqrt()).collect());
-        for (k, r) in [r0, r1, r2, r3, r4, r5].iter().enumerate() { worst[k] = worst[k].max(*r); if *r > 1e-6 { bad[k] += 1; } }
+    let (sx, sy) = (0.5000000000011529, 3.1440666663858847);
+    let ax = Vector3::new(0.49214432949105447, 0.4545131353375645, 0.7424363735401285).normalize() * -1.7179289291171027;
+    let iso = Iso3::new(Vector3::new(0.09697189754511903, 3.220295049600743, -3.8621702057119656), ax);
+    let v: Vec<Point3> = [[0.0, 0.0, 0.0], [sx, 0.0, 0.0], [0.0, sy, 0.0], [sx, sy, 0.0]].iter().map(|p| iso * Point3::new(p[0], p[1], p[2])).collect();
+    for faces in [vec![[0u32, 1, 3], [0, 3, 2]], vec![[0u32, 1, 2], [1, 3, 2]]] {
+        let m = Mesh::new(v.clone(), faces.clone(), false);
+        let n = Vector3::new(-0.5759192141078121, 0.5932361426655713, 0.5624837223037782).normalize();
+        let proj: Vec<f64> = v.iter().map(|p| n.dot(&p.coords)).collect();
+        let (lo, hi) = (proj.iter().cloned().fold(f64::INFINITY, f64::min), proj.iter().cloned().fold(f64::NEG_INFINITY, f64::max));
+        let d = lo + 0.7202451074742715 * (hi - lo);
+        let plane = Plane3::new(UnitVec3::new_normalize(n), d);
+        println!("faces {:?} proj {:?} d {d}", faces, proj);
+        let which = std::env::args().nth(1).unwrap_or_default();
+        if which == "section" {
+            let c = m.section(&plane, Some(1e-9)).unwrap();
+            println!("section ok: {} curves", c.len());
+        } else {
+            let r = m.split(&plane);
+            println!("split ok: {}", match r { engeom::common::SplitResult::Pair(..) => "pair", engeom::common::SplitResult::Negative => "neg", _ => "pos" });
+        }
     }
-    println!("worst {:?}\nbad(>1e-6) of {total}: {:?}", worst.map(|x| format!("{:.1e}", x)), bad);
 }
